@@ -29,6 +29,7 @@ type fragReader struct {
 	pos  int
 	unit int // if >0: uniform reads of at most unit bytes
 	read int
+	eofData bool // the Read that returns the last bytes also returns io.EOF (n > 0 with err != nil)
 }
 
 func (r *fragReader) Read(p []byte) (int, error) {
@@ -56,6 +57,9 @@ func (r *fragReader) Read(p []byte) (int, error) {
 	n := copy(p, r.data[r.pos:end])
 	r.pos += n
 	r.read += n
+	if r.eofData && r.pos >= len(r.data) {
+		return n, io.EOF
+	}
 	return n, nil
 }
 
@@ -71,11 +75,22 @@ type C05Case struct {
 	// must still be read at their offsets, and no byte of an earlier message may show up in it.
 	Overstate int
 	OverIdx   int
+	// EOFData: the source returns io.EOF together with the last bytes of the stream
+	EOFData bool
+	// MBL: the exported tuning variable diam.MessageBufferLength is set to MBL[i] before message i
+	// is read (the pooled read buffers of earlier reads stay in the pool)
+	MBL []int
 }
 
 func (c C05Case) Desc() string {
 	if c.Overstate > 0 {
 		return fmt.Sprintf("bodies=%v cuts=%v unit=%d bufio=%v last AVP of message %d overstates its length by %d", c.Sizes, c.Cuts, c.Unit, c.Buffered, c.OverIdx, c.Overstate)
+	}
+	if len(c.MBL) > 0 {
+		return fmt.Sprintf("bodies=%v bufio=%v, diam.MessageBufferLength set to %v before the respective read", c.Sizes, c.Buffered, c.MBL)
+	}
+	if c.EOFData {
+		return fmt.Sprintf("bodies=%v cuts=%v unit=%d bufio=%v trunc=%d badlen=%d, io.EOF returned together with the last bytes", c.Sizes, c.Cuts, c.Unit, c.Buffered, c.Trunc, c.BadLen)
 	}
 	return fmt.Sprintf("bodies=%v cuts=%v unit=%d bufio=%v trunc=%d badlen=%d", c.Sizes, c.Cuts, c.Unit, c.Buffered, c.Trunc, c.BadLen)
 }
@@ -130,7 +145,7 @@ func c05Eval(cs C05Case) string {
 	return safely(func() string {
 		full, _ := cs.stream()
 		want, tail := refcodec.SplitStream(full)
-		fr := &fragReader{data: full, cuts: cs.Cuts, unit: cs.Unit}
+		fr := &fragReader{data: full, cuts: cs.Cuts, unit: cs.Unit, eofData: cs.EOFData}
 		var src io.Reader = fr
 		var br *bufio.Reader
 		if cs.Buffered {
@@ -144,7 +159,14 @@ func c05Eval(cs C05Case) string {
 			return fr.read
 		}
 		sum := 0
+		if len(cs.MBL) > 0 {
+			old := diam.MessageBufferLength
+			defer func() { diam.MessageBufferLength = old }()
+		}
 		for k, w := range want {
+			if k < len(cs.MBL) {
+				diam.MessageBufferLength = cs.MBL[k]
+			}
 			m, err := diam.ReadMessage(src, dict.Default)
 			if cs.Overstate > 0 && k == cs.OverIdx {
 				if err == nil {
@@ -286,6 +308,29 @@ func c05Enum(ctx *ev.Ctx, fn func(C05Case)) string {
 			}
 		}
 	}
+	// the exported diam.MessageBufferLength changed between reads: buffers pooled under the earlier
+	// setting are still in the pool
+	{
+		bodies := []int{8, 600, 1016, 2036, 5000}
+		mbls := []int{1024, 4096, 512}
+		var rec func(sz, mb []int)
+		rec = func(sz, mb []int) {
+			if len(sz) > 0 {
+				for _, buffered := range []bool{false, true} {
+					emit(C05Case{Sizes: append([]int{}, sz...), MBL: append([]int{}, mb...), Buffered: buffered, Trunc: -1, BadLen: -1})
+				}
+			}
+			if len(sz) == 3 {
+				return
+			}
+			for _, b := range bodies {
+				for _, m := range mbls {
+					rec(append(sz, b), append(mb, m))
+				}
+			}
+		}
+		rec(nil, nil)
+	}
 	// declared length 0..19 as the very first header
 	for l := 0; l < 20; l++ {
 		for _, buffered := range []bool{false, true} {
@@ -340,6 +385,9 @@ func c05Enum(ctx *ev.Ctx, fn func(C05Case)) string {
 		for _, buffered := range []bool{false, true} {
 			base := C05Case{Sizes: sq, Buffered: buffered, Trunc: -1, BadLen: -1}
 			emit(base)
+			e := base
+			e.EOFData = true
+			emit(e)
 			// all cut vectors with <= cutCap cuts over the offsets
 			var rec func(start int, cur []int)
 			rec = func(start int, cur []int) {
@@ -347,6 +395,10 @@ func c05Enum(ctx *ev.Ctx, fn func(C05Case)) string {
 					c := base
 					c.Cuts = append([]int{}, cur...)
 					emit(c)
+					if len(cur) == 1 {
+						c.EOFData = true
+						emit(c)
+					}
 				}
 				if len(cur) == cutCap {
 					return
@@ -396,7 +448,7 @@ func c05Enum(ctx *ev.Ctx, fn func(C05Case)) string {
 			}
 		}
 	}
-	return "all sequences of <=3 messages over body sizes {0,8,1016,1024,1028,4100,70000}; read through a scripted io.Reader and through bufio.NewReader on top of it; all cut vectors with <=2 (thorough 3) cuts - every offset for streams <=200 bytes, otherwise every offset within +-3 (thorough: +-24 for single messages) of a message border, header/body border, 1 KiB and 4 KiB boundary (quick: three large messages or more than 120 candidate offsets: <=1 cut; thorough: 3 cuts where the candidate set has <=70 offsets and no 70 000-byte message is involved, otherwise 2, and 1 for three messages including the 70 000-byte one); uniform 1..40-byte readers; truncation at every such offset (plain, 7-byte reads, and with one earlier cut for short streams); a header declaring each length 0..19 followed by 40 more bytes after every sequence of <=2 messages and as the first header. and messages whose last AVP declares 1..2000 bytes more than the (truthful) message holds, between two other messages: rejected, following message still read at its offset. Distinct by (sizes, cuts, unit, bufio, truncation, bad length, overstatement)."
+	return "all sequences of <=3 messages over body sizes {0,8,1016,1024,1028,4100,70000}; read through a scripted io.Reader and through bufio.NewReader on top of it; all cut vectors with <=2 (thorough 3) cuts - every offset for streams <=200 bytes, otherwise every offset within +-3 (thorough: +-24 for single messages) of a message border, header/body border, 1 KiB and 4 KiB boundary (quick: three large messages or more than 120 candidate offsets: <=1 cut; thorough: 3 cuts where the candidate set has <=70 offsets and no 70 000-byte message is involved, otherwise 2, and 1 for three messages including the 70 000-byte one); uniform 1..40-byte readers; truncation at every such offset (plain, 7-byte reads, and with one earlier cut for short streams); a header declaring each length 0..19 followed by 40 more bytes after every sequence of <=2 messages and as the first header. and messages whose last AVP declares 1..2000 bytes more than the (truthful) message holds, between two other messages: rejected, following message still read at its offset.; the base and single-cut cases also with a source that returns io.EOF together with the last bytes; all histories of <=3 reads over bodies {8,600,1016,2036,5000} with diam.MessageBufferLength set to one of {1024,4096,512} before each read. Distinct by (sizes, cuts, unit, bufio, truncation, bad length, overstatement, EOF mode, buffer lengths)."
 }
 
 func runC05(ctx *ev.Ctx) {
